@@ -166,6 +166,8 @@ def generate(tier):
                 c.key += '|rot'
                 cases.append(c)
     from .common import zoo_cases
+    from .common import unsized_cases
+    cases += unsized_cases('C02')
     cases += zoo_cases('C02', 'PartialEq', 'Debug, Clone', 'Debug, Clone, PartialEq',
                        '    for (i, (a, ta)) in vs.iter().enumerate() {\n        for (j, (b, tb)) in vs.iter().enumerate() {\n'
                        '            r.ck((a == b) == (ta == tb), (ta == tb) as u64, &|| format!("values #{} and #{}: == gives {}, #[derive(PartialEq)] gives {}", i, j, a == b, ta == tb));\n'
